@@ -49,7 +49,7 @@ LEAVES = [
     ('add', 'Linear', 'f64', 'Linear', 'free'), ('add', 'Linear', 'Linear', 'Linear', 'merge'),
     ('add', 'Quadratic', 'f64', 'Quadratic', 'free'), ('add', 'Quadratic', 'Linear', 'Quadratic', 'deleg'), ('add', 'Quadratic', 'Quadratic', 'Quadratic', 'merge2'),
     ('add', 'Polynomial', 'f64', 'Polynomial', 'map'), ('add', 'Polynomial', 'Linear', 'Polynomial', 'map'), ('add', 'Polynomial', 'Quadratic', 'Polynomial', 'map'),
-    ('add', 'Polynomial', 'Polynomial', 'Polynomial', 'map'),
+    ('add', 'Polynomial', 'Polynomial', 'Polynomial', 'pmerge'),
     ('mul', 'Linear', 'f64', 'Linear', 'free'), ('mul', 'Linear', 'Linear', 'Quadratic', 'mulll'),
     ('mul', 'Quadratic', 'f64', 'Quadratic', 'free'), ('mul', 'Quadratic', 'Linear', 'Polynomial', 'map'), ('mul', 'Quadratic', 'Quadratic', 'Polynomial', 'map'),
     ('mul', 'Polynomial', 'f64', 'Polynomial', 'free'), ('mul', 'Polynomial', 'Linear', 'Polynomial', 'map'), ('mul', 'Polynomial', 'Quadratic', 'Polynomial', 'map'),
@@ -87,13 +87,19 @@ def spec_impl(op, a, b, c, req='true'):
 def leaf_spec_text():
     out = ['// ---- leaf remainders: 0 for map-free code, uninterpreted for the assumed BTreeMap-merge leaves ----\n']
     for op, a, b, c, kind in LEAVES:
-        sig = 'pub %s spec fn %s(x: v1::%s, y: %s, m: Map<u64, F64>) -> real' % ('open' if kind in ('free', 'merge', 'deleg', 'merge2', 'mulll') else 'uninterp', rem_name(op, a, b), a, 'F64' if b == 'f64' else 'v1::' + b)
+        sig = 'pub %s spec fn %s(x: v1::%s, y: %s, m: Map<u64, F64>) -> real' % ('open' if kind in ('free', 'merge', 'deleg', 'merge2', 'mulll', 'pmerge') else 'uninterp', rem_name(op, a, b), a, 'F64' if b == 'f64' else 'v1::' + b)
         if kind == 'merge2':
             assert (op, a, b) == ('add', 'Quadratic', 'Quadratic')
             out.append('pub open spec fn rem_add_quadratic_quadratic(x: v1::Quadratic, y: v1::Quadratic, m: Map<u64, F64>) -> real {\n'
                        '    quad_sum(x.rows@, x.columns@, x.values@, quad_n(x), m) + quad_sum(y.rows@, y.columns@, y.values@, quad_n(y), m)\n'
                        '        - ksum(kacc(quad_items(y), quad_n(y), true, kins(quad_items(x), quad_n(x))), qw2(m))\n'
                        '        + (match (x.linear, y.linear) { (Some(l), Some(r)) => rem_add_linear_linear(l, r, m), _ => 0real })\n}\n')
+            continue
+        if kind == 'pmerge':
+            # verified leaf: Polynomial + Polynomial is the specified merge keyed by the id lists (accumulate, drop when |sum| <= EPSILON); remainder DEFINED as the difference
+            assert (op, a, b) == ('add', 'Polynomial', 'Polynomial')
+            out.append('pub open spec fn rem_add_polynomial_polynomial(x: v1::Polynomial, y: v1::Polynomial, m: Map<u64, F64>) -> real {\n'
+                       '    polynomial_val(x, m) + polynomial_val(y, m) - ksum(kacc(pitems(x.terms@ + y.terms@), (x.terms.len() + y.terms.len()) as int, true, Map::empty()), pw(m))\n}\n')
             continue
         if kind == 'mulll':
             # verified leaf: the quadratic part of Linear * Linear is exact; the linear part is (x * r) + (c * y) - r * c, whose only inexact step is that one Linear + Linear
@@ -922,3 +928,67 @@ def var_units():
                           header='fn %s(self, rhs: %s) -> (r: %s)\n        ensures exists|a: Linear, b: Linear| #![trigger var_lin(a, self.id), var_lin(b, rhs.id)] var_lin(a, self.id) && var_lin(b, rhs.id) && %s,'
                                  % (op, RR, T[out]['rust'], contract_conj(op, 'Linear', 'Linear', out, lhs='a', rhs='b'))))
     return U
+
+
+# ---------------------------------------------------------------- Polynomial + Polynomial (map keyed by id lists: VMap, R28)
+PMERGE_STUBS = '''// BTreeMap<Vec<u64>, f64>::into_iter().map(|(ids, coefficient)| Monomial { ids, coefficient }).collect(): one monomial per entry (ascending key order; only distinctness is used)
+#[verifier::external_body]
+pub fn vmap_into_monomials(m: VMap) -> (r: Vec<Monomial>)
+    ensures r.len() == m@.len(),
+        forall|i: int| 0 <= i < r.len() ==> m@.contains_key((#[trigger] r[i]).ids@) && m@[r[i].ids@] == r[i].coefficient,
+        forall|i: int, j: int| 0 <= i < j < r.len() ==> (#[trigger] r[i]).ids@ != (#[trigger] r[j]).ids@,
+        forall|k: Seq<u64>| #[trigger] m@.contains_key(k) ==> exists|i: int| 0 <= i < r.len() && (#[trigger] r[i]).ids@ == k,
+{ unimplemented!() }
+'''
+
+
+def polynomial_add_polynomial():
+    N = '(self.terms.len() + rhs.terms.len()) as int'
+    FIN = 'poly_fin(self.terms@) && poly_fin(rhs.terms@)'
+    final_proof = '''let ghost n = %s; let ghost its = pitems(ch); let ghost am = kacc(its, n, true, Map::empty());
+        let __t = vmap_into_monomials(terms);   // R20c
+        proof {
+            let pt = pitems(__t@);
+            if %s {
+                assert(kfin(its)) by { assert forall|i: int| 0 <= i < its.len() implies fin((#[trigger] its[i]).1) by {
+                    if i < self.terms.len() { assert(ch[i] == self.terms[i]); } else { assert(ch[i] == rhs.terms[i - self.terms.len()]); } } }
+                assert(am.dom() =~= terms@.dom());
+                assert(klists(pt, __t.len() as int, am)) by {
+                    assert forall|i: int| 0 <= i < __t.len() implies am.contains_key((#[trigger] pt[i]).0) && pt[i].1@ == XR::Fin(am[pt[i].0]) by { assert(terms@.contains_key(__t[i].ids@)); }
+                    assert forall|i: int, j: int| 0 <= i < j < __t.len() implies (#[trigger] pt[i]).0 != (#[trigger] pt[j]).0 by { assert(__t[i].ids@ != __t[j].ids@); }
+                }
+                assert forall|i: int| 0 <= i < __t.len() implies fin((#[trigger] __t@[i]).coefficient) by { assert(terms@.contains_key(__t[i].ids@)); }
+                assert forall|m: Map<u64, F64>| poly_sum(__t@, __t.len() as int, m) == ksum(am, pw(m)) by { lemma_pitems_sum(__t@, __t.len() as int, m); lemma_klist_sum(pt, __t.len() as int, am, pw(m)); }
+                assert forall|m: Map<u64, F64>| poly_sum(ch, n, m) == polynomial_val(self, m) + polynomial_val(rhs, m) by { lemma_poly_sum_concat(self.terms@, rhs.terms@, rhs.terms.len() as int, m); }
+            }
+            assert forall|k: u64| poly_ids(__t@, __t.len() as int).contains(k) implies polynomial_ids(self).union(polynomial_ids(rhs)).contains(k) by {
+                lemma_poly_ids_mem(__t@, __t.len() as int, k);
+                let i = choose|i: int| 0 <= i < __t.len() && #[trigger] mono_ids(__t@[i].ids@, __t@[i].ids.len() as int).contains(k);
+                assert(terms@.contains_key(__t[i].ids@));
+                let j = choose|j: int| 0 <= j < ch.len() && (#[trigger] ch[j]).ids@ == __t[i].ids@;
+                assert(ch[j].ids.len() == __t[i].ids.len());
+                if j < self.terms.len() { assert(ch[j] == self.terms[j]); lemma_poly_ids_mem(self.terms@, self.terms.len() as int, k); assert(mono_ids(self.terms@[j].ids@, self.terms@[j].ids.len() as int).contains(k)); }
+                else { let q = j - self.terms.len(); assert(ch[j] == rhs.terms[q]); lemma_poly_ids_mem(rhs.terms@, rhs.terms.len() as int, k); assert(mono_ids(rhs.terms@[q].ids@, rhs.terms@[q].ids.len() as int).contains(k)); }
+            }
+        }
+        ''' % (N, FIN)
+    return Unit('Add for Polynomial', 'polynomial.rs', 'add', impl=r'impl Add for Polynomial \{', sig='fn add(self, rhs: Self) -> Self', anyhow=False,
+                pre=spec_impl('add', 'Polynomial', 'Polynomial', 'Polynomial'), wrap=('impl core::ops::Add for Polynomial { type Output = Polynomial;', '}'),
+                header='''#[verifier::loop_isolation(false)]
+fn add(self, rhs: Self) -> (r: Polynomial)
+        // the result lists, one monomial per key, the specified merge of the two monomial lists keyed by the id list (equal id lists accumulated, an entry dropped when |sum| <= EPSILON);
+        // the remainder is DEFINED as the difference to that merge
+        ensures ''' + contract('add', 'Polynomial', 'Polynomial', 'Polynomial'),
+                rsubs=[(r'let mut terms = BTreeMap::new\(\);', 'let mut terms: VMap = VMap::new();', 1),      # R28
+                       (r'self\.terms\.iter\(\)\.chain\(rhs\.terms\.iter\(\)\)', 'chain_refs(&self.terms, &rhs.terms)', 1),
+                       (r'(?s)terms\.into_iter\(\)\.map\(\|\(ids, coefficient\)\| Monomial \{ ids, coefficient \}\)\.collect\(\)', 'vmap_into_monomials(terms)', 1)],
+                loops=[dict(kind='for', it='it_1', rebind='*__e',
+                            body_proof=' proof { assert(**__e == ch[it_1.index@ as int]); assert(pitems(ch)[it_1.index@ as int] == (term.ids@, term.coefficient)); }',
+                            inv='''invariant
+                ch == self.terms@ + rhs.terms@, __h1.len() == ch.len(),
+                forall|i: int| 0 <= i < ch.len() ==> *(#[trigger] __h1[i]) == ch[i],
+                kfin(pitems(ch)) ==> kmatches(terms@, kacc(pitems(ch), it_1.index@ as int, true, Map::empty())),
+                forall|k: Seq<u64>| #[trigger] terms@.contains_key(k) ==> exists|j: int| 0 <= j < it_1.index@ && (#[trigger] ch[j]).ids@ == k,''')],
+                proofs=[(('before', r'let __h1 = chain_refs'), 'let ghost ch = self.terms@ + rhs.terms@;\n        '),
+                        (('before', r'Self \{\s*terms: __t'), final_proof)],
+                post_subs=[('terms: vmap_into_monomials(terms),', 'terms: __t,')])
